@@ -92,6 +92,14 @@ impl Idm {
         })
     }
 
+    /// proxy write transaction at `ct` that is always dropped without commit
+    pub fn write_abort_result<R>(&self, ct: Duration, f: impl FnOnce(&mut IdmServerProxyWriteTransaction<'_>) -> Result<R, OperationError>) -> Result<R, OperationError> {
+        self.rt.block_on(async {
+            let mut w = self.idms.proxy_write(ct).await?;
+            f(&mut w)
+        })
+    }
+
     pub fn read<R>(&self, f: impl FnOnce(&mut IdmServerProxyReadTransaction<'_>) -> R) -> R {
         self.rt.block_on(async {
             let mut r = self.idms.proxy_read().await.unwrap_or_else(|e| kv_engine::ctx::machinery_exit(&format!("idm read txn: {e:?}")));
